@@ -138,6 +138,7 @@ counters!(
     runs_longhistory,
     runs_marathon,
     runs_relative_path,
+    runs_link_chain,
     chdir_ops,
     loads_naming_the_other_directory,
     opens_of_the_other_directory,
@@ -234,6 +235,9 @@ impl Counters {
 
 pub struct RealDisk {
     pub path: PathBuf,
+    /// The worker's directory (`path` normally lives here; in chain runs the updater's file is
+    /// `dir/chain/target.<tag>` and `dir/<name>` is a chain of links to it).
+    dir: PathBuf,
     tmp: PathBuf,
     pub pool_dir: PathBuf,
     current: Option<usize>,
@@ -280,6 +284,7 @@ impl RealDisk {
             .map_err(|e| HarnessError(format!("create {}: {e}", worker_dir.display())))?;
         Ok(RealDisk {
             path: worker_dir.join("leap-seconds.list"),
+            dir: worker_dir.to_path_buf(),
             tmp: worker_dir.join(".leap-seconds.list.new"),
             pool_dir: pool_dir.to_path_buf(),
             current: None,
@@ -299,8 +304,14 @@ impl RealDisk {
         if self.current.is_some() {
             let _ = std::fs::remove_file(&self.path);
         }
-        let dir = self.path.parent().unwrap().to_path_buf();
-        self.path = dir.join(format!("leap-seconds.{tag}.list"));
+        // One name in four is not valid UTF-8 (a Latin-1 `e acute`): a path is bytes, not text.
+        let mut name: Vec<u8> = format!("leap-seconds.{tag}").into_bytes();
+        if tag % 4 == 1 {
+            name.extend_from_slice(b".donn\xe9es");
+        }
+        name.extend_from_slice(b".list");
+        use std::os::unix::ffi::OsStringExt;
+        self.path = self.dir.join(std::ffi::OsString::from_vec(name));
         self.current = None;
     }
 
@@ -394,6 +405,86 @@ struct CwdState {
     elsewhere: PathBuf,
     away: bool,
     decoy: usize,
+    /// The symbolic links of this little world: (link, target as written in the link).
+    links: Vec<(PathBuf, PathBuf)>,
+    /// Where the simulated file really is (the end of every chain of links that leads to it).
+    main_canon: PathBuf,
+    /// Where the decoy is found: `elsewhere/<name>` and, in chain runs, `home/target.<tag>`.
+    decoys: Vec<PathBuf>,
+    /// Links and files of this run to remove when it ends.
+    litter: Vec<PathBuf>,
+    /// Environment variables changed for this run: (name, value before).
+    env_before: Vec<(&'static str, Option<std::ffi::OsString>)>,
+}
+
+#[derive(Clone, Copy, PartialEq, Eq)]
+enum Named {
+    Main,
+    Decoy,
+    Other,
+}
+
+impl CwdState {
+    /// Resolves a path the way the kernel walks it: component by component from the directory the
+    /// process is in (or from the root), following symbolic links — a relative link target is
+    /// relative to the directory THE LINK is in, and `..` after a link is the parent of the
+    /// link's target.
+    fn resolve(&self, path: &Path) -> PathBuf {
+        use std::collections::VecDeque;
+        use std::path::Component;
+        let mut cur = if path.is_absolute() {
+            PathBuf::from("/")
+        } else if self.away {
+            self.elsewhere.clone()
+        } else {
+            self.home.clone()
+        };
+        let mut todo: VecDeque<std::ffi::OsString> = VecDeque::new();
+        let push_front = |todo: &mut VecDeque<std::ffi::OsString>, p: &Path| {
+            let comps: Vec<std::ffi::OsString> = p
+                .components()
+                .filter_map(|c| match c {
+                    Component::Normal(n) => Some(n.to_os_string()),
+                    Component::ParentDir => Some("..".into()),
+                    _ => None,
+                })
+                .collect();
+            for c in comps.into_iter().rev() {
+                todo.push_front(c);
+            }
+        };
+        push_front(&mut todo, path);
+        let mut hops = 0;
+        while let Some(c) = todo.pop_front() {
+            if c == ".." {
+                cur.pop();
+                continue;
+            }
+            let cand = cur.join(&c);
+            match self.links.iter().find(|(l, _)| *l == cand) {
+                Some((_, target)) if hops < 40 => {
+                    hops += 1;
+                    if target.is_absolute() {
+                        cur = PathBuf::from("/");
+                    }
+                    push_front(&mut todo, target);
+                }
+                _ => cur = cand,
+            }
+        }
+        cur
+    }
+
+    fn classify(&self, path: &Path) -> Named {
+        let canon = self.resolve(path);
+        if canon == self.main_canon {
+            Named::Main
+        } else if self.decoys.contains(&canon) {
+            Named::Decoy
+        } else {
+            Named::Other
+        }
+    }
 }
 
 /// The working directory is process-wide: relative runs execute one at a time (every other run
@@ -434,38 +525,18 @@ impl World {
     }
 
     fn open(&mut self, path: &Path, me: &Rc<RefCell<World>>) -> io::Result<Box<dyn Read>> {
-        // A relative path names a file in the directory the process is in.
-        let resolved: std::borrow::Cow<Path> = match (&self.cwd, path.is_relative()) {
-            (Some(c), _) => {
-                // The way the kernel walks a path: component by component, following the one
-                // symbolic link of this little world (`home/link` -> `elsewhere/deep`), so that
-                // `..` after it is the parent of the link's TARGET.
-                let mut abs = if path.is_relative() {
-                    if c.away { c.elsewhere.clone() } else { c.home.clone() }
-                } else {
-                    PathBuf::new()
-                };
-                let link = c.home.join("link");
-                for comp in path.components() {
-                    match comp {
-                        std::path::Component::CurDir => {}
-                        std::path::Component::ParentDir => {
-                            abs.pop();
-                        }
-                        other => abs.push(other.as_os_str()),
-                    }
-                    if abs == link {
-                        abs = c.elsewhere.join("deep");
-                    }
-                }
-                std::borrow::Cow::Owned(abs)
-            }
-            _ => std::borrow::Cow::Borrowed(path),
+        // Which file does this path name? In a relative run the little world of links and
+        // directories decides (see `CwdState::resolve`); otherwise only the simulated path itself
+        // is the simulated file.
+        let named = match &self.cwd {
+            Some(c) => c.classify(path),
+            None if path == self.sim_path => Named::Main,
+            None => Named::Other,
         };
-        if let Some(c) = &self.cwd {
-            if *resolved == *c.elsewhere.join(self.sim_path.file_name().unwrap_or_default()) {
-                // The file of the same name in the other directory: served whole, without faults.
-                let decoy = c.decoy;
+        match named {
+            Named::Decoy => {
+                // The other file of that name: served whole, without faults.
+                let decoy = self.cwd.as_ref().map(|c| c.decoy).unwrap_or(0);
                 self.ctr.inc(C::opens_of_the_other_directory);
                 self.log.byte(b'y');
                 if let Some(a) = self.armed.as_mut() {
@@ -478,10 +549,11 @@ impl World {
                 }
                 return Ok(Box::new(io::Cursor::new(self.ctx.images[decoy].bytes().to_vec())));
             }
-        }
-        if *resolved != *self.sim_path {
-            // Not the simulated file: behave like the real file system.
-            return std::fs::File::open(path).map(|f| Box::new(f) as Box<dyn Read>);
+            Named::Other => {
+                // Not a simulated file: behave like the real file system.
+                return std::fs::File::open(path).map(|f| Box::new(f) as Box<dyn Read>);
+            }
+            Named::Main => {}
         }
         self.ctr.inc(C::opens);
         self.log.byte(b'o');
@@ -993,30 +1065,76 @@ impl Sim {
             let elsewhere = home.join("elsewhere");
             let name = path.file_name().unwrap().to_os_string();
             let decoy = sc.decoy % ctx.images.len();
+            // Every other relative run, the path the clients know is the head of a CHAIN of links
+            // that crosses into another directory and continues there with a relative target:
+            //   home/<name> -> chain/<name>;  home/chain/<name> -> target.<tag>
+            // the updater's file is home/chain/target.<tag>, and a stale file of that last name
+            // (the decoy again) lies beside the first link, where a link follower that resolves
+            // every relative target against the directory it started in ends up.
+            let chain = sc.seed % 2 == 1;
+            let target_name = {
+                let mut t = std::ffi::OsString::from("target.");
+                t.push(&name);
+                t
+            };
+            let mut links = vec![(home.join("link"), elsewhere.join("deep"))];
+            let mut decoys = vec![elsewhere.join(&name)];
+            let mut litter = vec![elsewhere.join(&name)];
+            let mut main_canon = path.clone();
+            if chain {
+                links.push((home.join(&name), Path::new("chain").join(&name)));
+                links.push((home.join("chain").join(&name), PathBuf::from(&target_name)));
+                main_canon = home.join("chain").join(&target_name);
+                decoys.push(home.join(&target_name));
+                litter.push(home.join(&name));
+                litter.push(home.join("chain").join(&name));
+                litter.push(home.join(&target_name));
+                litter.push(main_canon.clone());
+            }
             let setup = (|| -> io::Result<()> {
                 std::fs::create_dir_all(elsewhere.join("deep"))?;
+                std::fs::create_dir_all(elsewhere.join("x"))?;
                 std::fs::create_dir_all(home.join("sub"))?;
+                std::fs::create_dir_all(home.join("~x"))?;
+                std::fs::create_dir_all(home.join("chain"))?;
                 if std::fs::symlink_metadata(home.join("link")).is_err() {
                     std::os::unix::fs::symlink(elsewhere.join("deep"), home.join("link"))?;
                 }
-                // one decoy file per worker directory is enough: runs do not overlap there
-                for old in std::fs::read_dir(&elsewhere)? {
-                    let old = old?.path();
-                    if !old.is_dir() {
-                        let _ = std::fs::remove_file(old);
-                    }
-                }
                 let pool_dir = self.world.borrow().real.as_ref().unwrap().pool_dir.clone();
-                std::os::unix::fs::symlink(RealDisk::pool_file(&pool_dir, decoy), elsewhere.join(&name))?;
+                let decoy_file = RealDisk::pool_file(&pool_dir, decoy);
+                let _ = std::fs::remove_file(elsewhere.join(&name));
+                std::os::unix::fs::symlink(&decoy_file, elsewhere.join(&name))?;
+                if chain {
+                    // move the updater's file to the end of the chain and lay the links
+                    let mut w = self.world.borrow_mut();
+                    let cur = w.cur();
+                    let r = w.real.as_mut().unwrap();
+                    let _ = std::fs::remove_file(&r.path);
+                    r.path = main_canon.clone();
+                    r.current = None;
+                    r.install(cur);
+                    std::os::unix::fs::symlink(Path::new("chain").join(&name), home.join(&name))?;
+                    std::os::unix::fs::symlink(&target_name, home.join("chain").join(&name))?;
+                    std::os::unix::fs::symlink(&decoy_file, home.join(&target_name))?;
+                }
                 std::env::set_current_dir(&home)
             })();
             if let Err(e) = setup {
                 std::panic::panic_any(HarnessError(format!("setting up the relative-path world in {}: {e}", home.display())));
             }
+            // The environment points at the other directory: nothing in it names the file.
+            let mut env_before = Vec::new();
+            for var in ["HOME", "TZDIR", "TMPDIR", "PWD", "OLDPWD", "XDG_DATA_HOME", "XDG_CONFIG_HOME", "XDG_CACHE_HOME", "USERPROFILE"] {
+                env_before.push((var, std::env::var_os(var)));
+                std::env::set_var(var, &elsewhere);
+            }
             _cwd_guard = Some(CwdGuard { back_to, _lock: lock });
             let mut w = self.world.borrow_mut();
-            w.cwd = Some(CwdState { home, elsewhere, away: false, decoy });
+            w.cwd = Some(CwdState { home, elsewhere, away: false, decoy, links, main_canon, decoys, litter, env_before });
             w.ctr.inc(C::runs_relative_path);
+            if chain {
+                w.ctr.inc(C::runs_link_chain);
+            }
             w.log.byte(b'~');
             path = PathBuf::from(name);
         }
@@ -1284,15 +1402,25 @@ impl Sim {
                             None => (path.clone(), false),
                             Some(cw) => {
                                 let name = w.sim_path.file_name().unwrap();
-                                let sp = if cw.away && matches!(*spelling, 2 | 3) { 0 } else { *spelling };
-                                match sp {
-                                    1 => (Path::new(".").join(name), cw.away),
-                                    2 => (Path::new("sub").join("..").join(name), false),
-                                    3 => (Path::new("link").join("..").join(name), true),
-                                    4 => (cw.home.join(name), false),
-                                    5 => (cw.home.join("link").join("..").join(name), true),
-                                    _ => (PathBuf::from(name), cw.away),
+                                let sp = if cw.away && matches!(*spelling, 2 | 3 | 6) { 0 } else { *spelling };
+                                let spelled = match sp {
+                                    1 => Path::new(".").join(name),
+                                    2 => Path::new("sub").join("..").join(name),
+                                    3 => Path::new("link").join("..").join(name),
+                                    4 => cw.home.join(name),
+                                    5 => cw.home.join("link").join("..").join(name),
+                                    6 => Path::new("~x").join("..").join(name),
+                                    _ => PathBuf::from(name),
+                                };
+                                // which file that spelling names, here and now
+                                let named = cw.classify(&spelled);
+                                if named == Named::Other {
+                                    std::panic::panic_any(HarnessError(format!(
+                                        "the spelling {} names no file of the simulated world",
+                                        spelled.display()
+                                    )));
                                 }
+                                (spelled, named == Named::Decoy)
                             }
                         }
                     };
@@ -1689,7 +1817,22 @@ impl Sim {
             }
         }
         let nontrivial = any_fault_or_race && any_ok_load_checked;
-        self.world.borrow_mut().cwd = None;
+        let ended = self.world.borrow_mut().cwd.take();
+        if let Some(c) = ended {
+            for (var, before) in &c.env_before {
+                match before {
+                    Some(v) => std::env::set_var(var, v),
+                    None => std::env::remove_var(var),
+                }
+            }
+            for p in &c.litter {
+                let _ = std::fs::remove_file(p);
+            }
+            // the next run starts from a worker directory without a file
+            if let Some(r) = self.world.borrow_mut().real.as_mut() {
+                r.current = None;
+            }
+        }
         drop(_cwd_guard);
         let mut w = self.world.borrow_mut();
         if nontrivial {
